@@ -45,6 +45,10 @@ fn vfalse(_: u64) -> String {
 fn vzero(_: u64) -> String {
     "0".into()
 }
+/// first step adds the explicit 5, every later one the default 1
+fn vdefault(n: u64) -> String {
+    if n == 0 { "0".into() } else { (5 + (n - 1)).to_string() }
+}
 fn vq(_: u64) -> String {
     "\"q\"".into()
 }
@@ -84,7 +88,9 @@ pub fn catalogue() -> Vec<Placement> {
         Placement { name: "tail/to_str-identity", decl: "fn v_f(v_n: int, v_a: str)->str{ to_str(if(v_n == 0, v_a, v_f(v_n - 1, v_a))) }", main_ty: "str", main_body: "v_f({N}, \"q\")", tail: true, value: vq, frames_per_level: 1, calls_per_level: 1, extra_calls: 0, extra_height: 0, error_arg: false },
         Placement { name: "tail/error-argument-unread", decl: "fn v_f(v_n: int, v_a: int, v_u: int)->int{ if(v_n == 0, v_a, v_f(v_n - 1, v_a + 1, error(\"boom\"))) }", main_ty: ii, main_body: "v_f({N}, 0, 0)", tail: true, value: vzero, frames_per_level: 1, calls_per_level: 1, extra_calls: 0, extra_height: 0, error_arg: true },
         Placement { name: "tail/error-argument-via-if_error", decl: "fn v_f(v_n: int, v_a: int, v_u: int)->int{ if_error(if(v_n == 0, v_a, error(\"more\")), \"more\", v_f(v_n - 1, v_a + 1, error(\"boom\"))) }", main_ty: ii, main_body: "v_f({N}, 0, 0)", tail: true, value: vzero, frames_per_level: 1, calls_per_level: 1, extra_calls: 0, extra_height: 0, error_arg: true },
+        Placement { name: "tail/default-param-omitted", decl: "fn v_f(v_n: int, v_a: int, v_s: int ?= 1)->int{ if(v_n == 0, v_a, v_f(v_n - 1, v_a + v_s)) }", main_ty: ii, main_body: "v_f({N}, 0, 5)", tail: true, value: vdefault, frames_per_level: 1, calls_per_level: 1, extra_calls: 0, extra_height: 0, error_arg: false },
         // ---------------- not tail positions
+        Placement { name: "nontail/default-param-omitted", decl: "fn v_f(v_n: int, v_a: int, v_s: int ?= 1)->int{ if(v_n == 0, v_a, 0 + v_f(v_n - 1, v_a + v_s)) }", main_ty: ii, main_body: "v_f({N}, 0, 5)", tail: false, value: vdefault, frames_per_level: 1, calls_per_level: 1, extra_calls: 0, extra_height: 0, error_arg: false },
         Placement { name: "nontail/error-argument-unread", decl: "fn v_f(v_n: int, v_a: int, v_u: int)->int{ if(v_n == 0, v_a, 0 + v_f(v_n - 1, v_a + 1, error(\"boom\"))) }", main_ty: ii, main_body: "v_f({N}, 0, 0)", tail: false, value: vzero, frames_per_level: 1, calls_per_level: 1, extra_calls: 0, extra_height: 0, error_arg: true },
         Placement { name: "nontail/under-operator", decl: "fn v_f(v_n: int)->int{ if(v_n == 0, 0, 1 + v_f(v_n - 1)) }", main_ty: ii, main_body: "v_f({N})", tail: false, value: vn, frames_per_level: 1, calls_per_level: 1, extra_calls: 0, extra_height: 0, error_arg: false },
         Placement { name: "nontail/arg-of-user-fn", decl: "fn v_id(v_x: int)->int{ v_x }\nfn v_f(v_n: int, v_a: int)->int{ if(v_n == 0, v_a, v_id(v_f(v_n - 1, v_a + 1))) }", main_ty: ii, main_body: "v_f({N}, 0)", tail: false, value: vn, frames_per_level: 1, calls_per_level: 2, extra_calls: 0, extra_height: 0, error_arg: false },
@@ -220,6 +226,16 @@ impl Job for PlacementJob {
         let p = &self.cat[self.idx];
         let c = &self.cases[i];
         let mut sc = Scenario::standard(&program(p, c.n), c.limits.clone());
+        // the host runs main twice on one runtime: whatever the first run ended in (value or
+        // violation), the second must end in the same
+        sc.ops = vec![
+            crate::engine::HostOp::Instantiate { slot: 0 },
+            crate::engine::HostOp::Run { slot: 0, func: "main".into() },
+            crate::engine::HostOp::DropAllResults,
+            crate::engine::HostOp::Run { slot: 0, func: "main".into() },
+            crate::engine::HostOp::DropAllResults,
+            crate::engine::HostOp::DropScope { slot: 0 },
+        ];
         sc.label = format!("C07 {} n={}", p.name, c.n);
         sc
     }
@@ -251,7 +267,8 @@ impl Job for PlacementJob {
         let n = c.n;
         let depth_trips = c.limits.depth.map_or(false, |d| height(p, n) >= d as u64);
         let rec_trips = c.limits.recursion.map_or(false, |l| tail_iters(p, n) > l as u64);
-        let got = r.main_outcome().clone();
+        let got = r.ops.get(1).map(|o| o.outcome.clone()).unwrap_or(Outcome::Unit);
+        let second = r.ops.get(3).map(|o| o.outcome.clone()).unwrap_or(Outcome::Unit);
         let kind = if p.tail { "tail" } else { "nontail" };
         let sigbase = format!("{} [{}]", p.name, kind);
         let mut expect: Vec<Outcome> = vec![];
@@ -293,17 +310,25 @@ impl Job for PlacementJob {
                 sc,
             ));
         }
-        // structural observations on fault-free runs
+        if second != got {
+            out.violate(violation(
+                P,
+                P,
+                ("tco".into(), format!("{sigbase}: a second run on the same runtime ends differently from the first"), format!("n={n} limits depth={:?} recursion={:?}: first {:?}, second {:?}", c.limits.depth, c.limits.recursion, got, second)),
+                sc,
+            ));
+        }
+        // structural observations on fault-free runs (two runs of main)
         if c.limits.depth.is_none() && c.limits.recursion.is_none() {
             let h = r.ops.iter().map(|o| o.max_height).max().unwrap_or(0) as u64;
-            if h != height(p, n) || r.counters.tail_iters != tail_iters(p, n) || r.counters.call_enters != calls(p, n) {
-                let what = if p.tail && r.counters.tail_iters < n { "tail self-call not optimised" } else if !p.tail && r.counters.tail_iters > 0 { "non-tail call treated as a tail call" } else { "frame/call shape differs from closed form" };
+            if h != height(p, n) || r.counters.tail_iters != 2 * tail_iters(p, n) || r.counters.call_enters != 2 * calls(p, n) {
+                let what = if p.tail && r.counters.tail_iters < 2 * n && !p.error_arg { "tail self-call not optimised" } else if !p.tail && r.counters.tail_iters > 0 { "non-tail call treated as a tail call" } else { "frame/call shape differs from closed form" };
                 out.violate(violation(
                     P,
                     P,
                     ("tco".into(), format!("{sigbase}: {what}"),
-                     format!("n={n}: deepest frame {h} (closed form {}), tail iterations {} (closed form {}), calls {} (closed form {})",
-                        height(p, n), r.counters.tail_iters, tail_iters(p, n), r.counters.call_enters, calls(p, n))),
+                     format!("n={n}: deepest frame {h} (closed form {}), tail iterations {} (closed form {}), calls {} (closed form {}) over two runs",
+                        height(p, n), r.counters.tail_iters, 2 * tail_iters(p, n), r.counters.call_enters, 2 * calls(p, n))),
                     sc,
                 ));
             }
